@@ -1,9 +1,9 @@
 // C16 -- Realization results depend only on current state values (DESIGN.md 5, C16).
 // Domain (histories): one model per case = mbgen tree (1..6 bodies, all mobilizer types except Weld, some locked by default)
 //   + 1..8 built-in non-contact force elements (forcegen.h; includes every position-only/cached element and Force::Gravity
-//   with its private cache, LinearBushing with its z variable) + 0..3 constraints (Rod, Ball, ConstantSpeed; some disabled by
+//   with its private cache, LinearBushing with its z variable) + 0..3 constraints of any built-in type (consgen.h; some disabled by
 //   default), and a history of <= 40 operations on ONE State: state-level force parameter setters, force enable/disable,
-//   set q/u of a mobilizer, set time, set z, realize(stage k), constraint enable/disable/setSpeed, lock/lockAt/unlock at the
+//   set q/u of a mobilizer, set time, set z, realize(stage k), constraint enable/disable and all State-level constraint parameter setters, lock/lockAt/unlock at the
 //   three levels, toggle Euler-angle/quaternion modelling, query.
 // Oracle (D against a fresh State): at every query and at the end a NEW State (copy of the System's default state) is given the
 //   same variable values through the same public setters in a canonical order (modelling option, locks, constraint flags and
@@ -15,16 +15,47 @@
 #include "pbt.h"
 #include "mbgen.h"
 #include "forcegen.h"
+#include "consgen.h"
 #include <malloc.h>
 using namespace SimTK;
 namespace fg = forcegen;
+namespace cg = consgen;
 
 namespace {
 std::string S(double a) { return pbt::str(a); }
 const int KW = 51, LW = 50, QW = 49;   // unit words: role selector, lock-by-default selector, query-after-force-op selector (unused by the mbgen/forcegen decoders)
 
-struct ConSpec { int type = 0; int b1 = 0, b2 = 1; Vec3 s1, s2; Real len = 1; int mob = 1, coord = 0; Real speed = 0; bool disabledByDefault = false; };
-const char* conName(int t) { return t == 0 ? "Rod" : t == 1 ? "Ball" : "ConstantSpeed"; }
+// State-level parameter values of one constraint (model of the public setters; initial values = the constructor arguments).
+struct ConVals { bool disabled = false; Vec3 p1, p2; Real length = 1, value = 0, r1 = 0.5, r2 = 0.5, h1 = 1, h2 = 1; Rotation R1, R2; UnitVec3 a1; };
+// number of State-level parameter setters of each built-in constraint type (0: the type has none -- only setDefault...() methods)
+int nConSetters(int type) {
+    switch (type) { case cg::Rod: return 3; case cg::Ball: return 2; case cg::NoSlip1D: return 2; case cg::ConstantCoordinate: case cg::ConstantSpeed: case cg::ConstantAcceleration: return 1;
+                    case cg::SphereOnPlaneContact: return 3; case cg::SphereOnSphereContact: return 4; case cg::LineOnLineContact: return 4; default: return 0; }
+}
+const char* conSetterName(int type, int k) {
+    switch (type) { case cg::Rod: return k == 0 ? "setPointOnBody1" : k == 1 ? "setPointOnBody2" : "setRodLength"; case cg::Ball: return k == 0 ? "setPointOnBody1" : "setPointOnBody2";
+                    case cg::NoSlip1D: return k == 0 ? "setContactPoint" : "setDirection"; case cg::ConstantCoordinate: return "setPosition"; case cg::ConstantSpeed: return "setSpeed"; case cg::ConstantAcceleration: return "setAcceleration";
+                    case cg::SphereOnPlaneContact: return k == 0 ? "setPlaneFrame" : k == 1 ? "setSphereCenter" : "setSphereRadius";
+                    case cg::SphereOnSphereContact: return k == 0 ? "setCenterOnF" : k == 1 ? "setRadiusOnF" : k == 2 ? "setCenterOnB" : "setRadiusOnB";
+                    case cg::LineOnLineContact: return k == 0 ? "setEdgeFrameF" : k == 1 ? "setHalfLengthF" : k == 2 ? "setEdgeFrameB" : "setHalfLengthB"; default: return "?"; }
+}
+// documented invalidation stage of the setters (Ball: "Instance-stage change"; Rod and the contact constraints: Stage::Position)
+Stage conSetterStage(int type) { return type == cg::Ball ? Stage::Instance : type == cg::ConstantSpeed || type == cg::NoSlip1D ? Stage::Velocity : type == cg::ConstantAcceleration ? Stage::Acceleration : Stage::Position; }
+// call setter k of constraint c with the value held in v
+void callConSetter(State& s, const Constraint& c, int type, int k, const ConVals& v) {
+    switch (type) {
+        case cg::Rod: { const Constraint::Rod& h = Constraint::Rod::downcast(c); if (k == 0) h.setPointOnBody1(s, v.p1); else if (k == 1) h.setPointOnBody2(s, v.p2); else h.setRodLength(s, v.length); break; }
+        case cg::Ball: { const Constraint::Ball& h = Constraint::Ball::downcast(c); if (k == 0) h.setPointOnBody1(s, v.p1); else h.setPointOnBody2(s, v.p2); break; }
+        case cg::NoSlip1D: { const Constraint::NoSlip1D& h = Constraint::NoSlip1D::downcast(c); if (k == 0) h.setContactPoint(s, v.p1); else h.setDirection(s, v.a1); break; }
+        case cg::ConstantCoordinate: Constraint::ConstantCoordinate::downcast(c).setPosition(s, v.value); break;
+        case cg::ConstantSpeed: Constraint::ConstantSpeed::downcast(c).setSpeed(s, v.value); break;
+        case cg::ConstantAcceleration: Constraint::ConstantAcceleration::downcast(c).setAcceleration(s, v.value); break;
+        case cg::SphereOnPlaneContact: { const Constraint::SphereOnPlaneContact& h = Constraint::SphereOnPlaneContact::downcast(c); if (k == 0) h.setPlaneFrame(s, Transform(v.R1, v.p1)); else if (k == 1) h.setSphereCenter(s, v.p2); else h.setSphereRadius(s, v.r2); break; }
+        case cg::SphereOnSphereContact: { const Constraint::SphereOnSphereContact& h = Constraint::SphereOnSphereContact::downcast(c); if (k == 0) h.setCenterOnF(s, v.p1); else if (k == 1) h.setRadiusOnF(s, v.r1); else if (k == 2) h.setCenterOnB(s, v.p2); else h.setRadiusOnB(s, v.r2); break; }
+        case cg::LineOnLineContact: { const Constraint::LineOnLineContact& h = Constraint::LineOnLineContact::downcast(c); if (k == 0) h.setEdgeFrameF(s, Transform(v.R1, v.p1)); else if (k == 1) h.setHalfLengthF(s, v.h1); else if (k == 2) h.setEdgeFrameB(s, Transform(v.R2, v.p2)); else h.setHalfLengthB(s, v.h2); break; }
+        default: break;
+    }
+}
 
 struct Group { std::string name; std::vector<Real> v; };
 typedef std::vector<Group> Results;
@@ -35,9 +66,9 @@ Calib& calib() { static Calib c; return c; }   // diagnostic only (C16_CALIB)
 struct Harness {
     pbt::Ctx& ctx; mbgen::ModelSpec spec, cur; mbgen::Options opt;
     std::unique_ptr<mbgen::Built> m; std::vector<fg::Element> el; std::vector<fg::Vals> val;
-    std::vector<ConSpec> cons; std::vector<Constraint> con; std::vector<Constraint::ConstantSpeed> conSpeedH;
+    std::vector<cg::ConsSpec> cons; std::vector<Constraint> con; std::vector<ConVals> conVal;
     // values not modelled by forcegen (read back from the history State / set by ops)
-    bool euler = false; std::vector<bool> conDisabled; std::vector<Real> conSpeed;
+    bool euler = false;
     bool nontrivial = false; int queries = 0;
     explicit Harness(pbt::Ctx& c) : ctx(c) {}
 
@@ -76,7 +107,7 @@ struct Harness {
             if (r.lockLevel[b] == (int)Motion::NoLevel) m->mb[b].unlock(f);
             else m->mb[b].lockAt(f, r.lockValue[b], Motion::Level(r.lockLevel[b]));
         }
-        for (size_t c = 0; c < con.size(); ++c) { if (conDisabled[c]) con[c].disable(f); else con[c].enable(f); if (cons[c].type == 2) conSpeedH[c].setSpeed(f, conSpeed[c]); }
+        for (size_t c = 0; c < con.size(); ++c) { if (conVal[c].disabled) con[c].disable(f); else con[c].enable(f); for (int k = 0; k < nConSetters(cons[c].type); ++k) callConSetter(f, con[c], cons[c].type, k, conVal[c]); }
         for (size_t i = 0; i < el.size(); ++i) fg::applyVals(*m, f, el[i], val[i]);
         f.setTime(r.t); f.updQ() = r.q; f.updU() = r.u; f.updZ() = r.z;
     }
@@ -131,18 +162,6 @@ struct Harness {
     }
 };
 
-ConSpec decodeCon(const pbt::Seg& seg, const mbgen::ModelSpec& m) {
-    pbt::Reader r(seg); ConSpec c; const int nb = m.nBodies();
-    std::vector<int> mobAny; for (int i = 0; i < nb; ++i) if (mbgen::mobNU(m.bodies[i].type) > 0) mobAny.push_back(i + 1);
-    c.type = r.pick(3); if (c.type == 2 && mobAny.empty()) c.type = 0;
-    uint32_t wa = r.w(), wb = r.w();
-    c.b1 = int(wa % uint32_t(nb + 1)); c.b2 = (c.b1 + 1 + int(wb % uint32_t(nb))) % (nb + 1);    // two different bodies
-    c.s1 = mbgen::readVec3(r, -0.8, 0.8); c.s2 = mbgen::readVec3(r, -0.8, 0.8); c.len = r.logreal(0.3, 3);
-    if (!mobAny.empty()) { c.mob = mobAny[r.w() % mobAny.size()]; c.coord = int(r.w() % uint32_t(mbgen::mobNU(m.bodies[c.mob - 1].type))); } else { r.w(); r.w(); }
-    c.speed = r.real(-2, 2); c.disabledByDefault = r.chance(1, 3);
-    return c;
-}
-
 Stage invalidatedBy(const fg::Element& e, const fg::Op& op) {   // documented invalidation stage of a force operation
     if (!op.isParam()) return Stage::Instance;
     if (e.spec.kind == fg::LinearBushing) return Stage::Instance;
@@ -153,7 +172,7 @@ void property(const pbt::Tape& t, pbt::Ctx& ctx) {
     pbt::Reader g(t[0]);
     std::vector<int> bodyU, forceU, conU, opU; const int maxBodies = 6;
     for (int i = 1; i < (int)t.size(); ++i) { uint32_t kw = t[i].size() > (size_t)KW ? t[i][KW] % 16u : 0u;
-        if (kw <= 3 && (int)bodyU.size() < maxBodies) bodyU.push_back(i); else if (kw >= 4 && kw <= 6 && (int)forceU.size() < 7) forceU.push_back(i); else if (kw == 7 && (int)conU.size() < 3) conU.push_back(i); else opU.push_back(i); }
+        if (kw <= 3 && (int)bodyU.size() < maxBodies) bodyU.push_back(i); else if (kw >= 4 && kw <= 6 && (int)forceU.size() < 7) forceU.push_back(i); else if ((kw == 7 || kw == 8) && (int)conU.size() < 3) conU.push_back(i); else opU.push_back(i); }
     Harness H(ctx);
     H.opt.maxBodies = maxBodies; H.opt.without({mbgen::Weld});     // constraints between relatively immobile bodies are a C08 matter
     pbt::Tape bt; bt.push_back(t[0]); for (int i : bodyU) bt.push_back(t[i]);
@@ -163,7 +182,11 @@ void property(const pbt::Tape& t, pbt::Ctx& ctx) {
     std::vector<fg::ForceSpec> fs;
     {   pbt::Seg s0(t[0].begin() + std::min<size_t>(4, t[0].size()), t[0].end()); fs.push_back(fg::decodeForce(s0, H.spec)); }
     for (int i : forceU) fs.push_back(fg::decodeForce(t[i], H.spec));
-    for (int i : conU) H.cons.push_back(decodeCon(t[i], H.spec));
+    cg::Options copt; copt.allowDisabled = true; copt.without({cg::Custom});    // every built-in constraint type (Custom is not built-in code)
+    for (int i : conU) { cg::ConsSpec c = cg::decodeConstraint(t[i], H.spec, copt);
+        // the Euler/quaternion option is toggled during the history: coordinate references must exist in both modes (nq is 3 or 4 / 6 or 7)
+        for (int k = 0; k < 3; ++k) c.qi[k] %= std::max(1, mbgen::mobNQ(H.spec.bodies[c.mob[k] - 1].type, true));
+        H.cons.push_back(c); }
     H.m.reset(new mbgen::Built(H.spec));
     // lock by default (word LW of the body unit)
     std::vector<int> lockDef(nb + 1, (int)Motion::NoLevel);
@@ -171,16 +194,13 @@ void property(const pbt::Tape& t, pbt::Ctx& ctx) {
         if (w >= 1 && w <= 3) { Motion::Level lv = w == 1 ? Motion::Position : w == 2 ? Motion::Velocity : Motion::Acceleration; H.m->mb[b].lockByDefault(lv); lockDef[b] = (int)lv; ctx.label("lock-by-default"); } }
     for (auto& f : fs) { H.el.push_back(fg::addToModel(*H.m, H.spec, f)); H.val.push_back(fg::initialVals(f)); ctx.label(std::string("force:") + fg::kindName(f.kind)); }
     for (auto& c : H.cons) {
-        Constraint k; Constraint::ConstantSpeed cs;
-        if (c.type == 0) k = Constraint::Rod(H.m->mb[c.b1], c.s1, H.m->mb[c.b2], c.s2, c.len);
-        else if (c.type == 1) k = Constraint::Ball(H.m->mb[c.b1], c.s1, H.m->mb[c.b2], c.s2);
-        else { cs = Constraint::ConstantSpeed(H.m->mb[c.mob], MobilizerUIndex(c.coord), c.speed); k = cs; }
-        if (c.disabledByDefault) k.setDisabledByDefault(true);
-        H.con.push_back(k); H.conSpeedH.push_back(cs); H.conDisabled.push_back(c.disabledByDefault); H.conSpeed.push_back(c.speed);
-        ctx.label(std::string("constraint:") + conName(c.type));
+        H.con.push_back(cg::addConstraint(*H.m, c));
+        ConVals v; v.disabled = c.disabled; v.p1 = c.p1; v.p2 = c.p2; v.length = c.length; v.value = c.value; v.r1 = c.r1; v.r2 = c.r2; v.h1 = c.h1; v.h2 = c.h2; v.R1 = c.R1; v.R2 = c.R2; v.a1 = c.a1;
+        H.conVal.push_back(v);
+        ctx.label(std::string("constraint:") + cg::consName(c.type)); if (c.disabled) ctx.label("constraint-disabled-by-default");
     }
     if (ctx.wantDesc) { H.spec.describe(ctx.desc); for (size_t i = 0; i < fs.size(); ++i) { ctx.desc << " force#" << i << ": "; fs[i].describe(ctx.desc); }
-        for (size_t i = 0; i < H.cons.size(); ++i) { const ConSpec& c = H.cons[i]; ctx.desc << " constraint#" << i << ": " << conName(c.type) << (c.disabledByDefault ? " (disabled by default)" : ""); if (c.type == 2) ctx.desc << " mobod=" << c.mob << " u#" << c.coord << " speed=" << c.speed; else ctx.desc << " b1=" << c.b1 << " s1=" << c.s1 << " b2=" << c.b2 << " s2=" << c.s2 << " len=" << c.len; ctx.desc << "\n"; }
+        for (size_t i = 0; i < H.cons.size(); ++i) { ctx.desc << " constraint#" << i << ": "; H.cons[i].describe(ctx.desc); ctx.desc << "\n"; }
         for (int b = 1; b <= nb; ++b) if (lockDef[b] != (int)Motion::NoLevel) ctx.desc << " body " << b << " locked by default at level " << lockDef[b] << "\n"; }
     H.m->finish(H.spec); H.m->setState(H.spec);
     State& s = H.m->state; const MultibodySystem& sys = H.m->sys;
@@ -223,7 +243,7 @@ void property(const pbt::Tape& t, pbt::Ctx& ctx) {
             Real tt = r.real(0, 10); s.setTime(tt); ctx.label("op:set-time"); if (ctx.wantDesc) ctx.desc << " op: setTime(" << tt << ")\n"; noteChange(before, Stage::Time);
         } else if (cls == 8) {
             if (s.getNZ() > 0) { int i = r.pick(s.getNZ()); Real z = r.real(0, 5); s.updZ()[i] = z; ctx.label("op:set-z"); if (ctx.wantDesc) ctx.desc << " op: z[" << i << "]=" << z << "\n"; noteChange(before, Stage::Dynamics); }
-        } else if (cls <= 10) {
+        } else if (cls == 9) {
             static const Stage::Level st[] = {Stage::Acceleration, Stage::Dynamics, Stage::Position, Stage::Velocity, Stage::Time, Stage::Instance, Stage::Report};
             int k = r.pick(7);
             try { sys.realize(s, Stage(st[k])); } catch (const std::exception&) { ctx.reject("realize-throws"); return; }
@@ -231,12 +251,39 @@ void property(const pbt::Tape& t, pbt::Ctx& ctx) {
         } else if (cls == 11 || (cls == 15 && (r.w() % 4u) != 1u)) {
             if (ctx.wantDesc) ctx.desc << " op: query\n";
             ctx.label("op:query"); if (!H.query("(query after operation " + std::to_string(nOps) + ")")) return;
-        } else if (cls == 12) {   // ---- constraint flags and parameters
+        } else if (cls == 10 || cls == 12) {   // ---- constraint flags and State-level constraint parameters
             if (H.con.empty()) continue;
-            int c = r.pick((int)H.con.size()); int what = r.pick(3);
-            if (what == 2 && H.cons[c].type == 2) { Real v = r.real(-2, 2); H.conSpeedH[c].setSpeed(s, v); if (v != H.conSpeed[c]) noteChange(before, Stage::Velocity); H.conSpeed[c] = v; ctx.label("op:constraint-setSpeed"); if (ctx.wantDesc) ctx.desc << " op: constraint#" << c << " setSpeed(" << v << ")\n"; }
-            else if (what == 0) { H.con[c].disable(s); if (!H.conDisabled[c]) noteChange(before, Stage::Instance); H.conDisabled[c] = true; ctx.label("op:constraint-disable"); if (ctx.wantDesc) ctx.desc << " op: constraint#" << c << " disable\n"; }
-            else { H.con[c].enable(s); if (H.conDisabled[c]) noteChange(before, Stage::Instance); H.conDisabled[c] = false; ctx.label("op:constraint-enable"); if (ctx.wantDesc) ctx.desc << " op: constraint#" << c << " enable\n"; }
+            int c = r.pick((int)H.con.size()); int what = r.pick(4); const int type = H.cons[c].type, ns = nConSetters(type); ConVals& v = H.conVal[c];
+            if (what >= 2 && ns > 0) {
+                int k = r.pick(ns); uint32_t wm = r.w(); const bool structured = (wm & 1u) != 0; const int mode = int((wm >> 1) % 840u), comp = int((wm >> 12) % 3u);
+                Vec3 fv = mbgen::readVec3(r, -1, 1); Rotation fR = mbgen::readRotation(r); Real fu = r.unit(), fr = r.real(-1, 1); UnitVec3 fa = cg::readUnit(r);
+                ConVals old = v; const std::string sn = conSetterName(type, k);
+                auto vec = [&](Vec3& x) { x = structured ? fg::deriveVec3(x, fv, mode, comp) : fv; };
+                auto pos = [&](Real& x, Real lo, Real fresh) { Real n = structured ? fg::deriveScalar(x, fresh, mode, false) : fresh; x = n >= lo ? n : fresh; };   // lengths and radii stay positive
+                auto frame = [&](Rotation& Rm, Vec3& pm) { if (!structured) { Rm = fR; pm = fv; } else switch (mode % 4) { case 1: pm = fv; break; case 2: Rm = fR; break; case 3: pm = -pm; break; default: break; } };
+                switch (type) {
+                    case cg::Rod: if (k == 0) vec(v.p1); else if (k == 1) vec(v.p2); else pos(v.length, 0.05, 0.3 + 1.7 * fu); break;
+                    case cg::Ball: if (k == 0) vec(v.p1); else vec(v.p2); break;
+                    case cg::NoSlip1D: if (k == 0) vec(v.p1); else { Vec3 d = structured ? fg::deriveVec3(Vec3(v.a1), Vec3(fa), mode % 4, comp) : Vec3(fa); v.a1 = UnitVec3(d); } break;
+                    case cg::ConstantCoordinate: case cg::ConstantSpeed: case cg::ConstantAcceleration: v.value = structured ? fg::deriveScalar(v.value, fr, mode, true) : fr; break;
+                    case cg::SphereOnPlaneContact: if (k == 0) frame(v.R1, v.p1); else if (k == 1) vec(v.p2); else pos(v.r2, 0.05, 0.2 + 0.8 * fu); break;
+                    case cg::SphereOnSphereContact: if (k == 0) vec(v.p1); else if (k == 1) pos(v.r1, 0.05, 0.2 + 0.8 * fu); else if (k == 2) vec(v.p2); else pos(v.r2, 0.05, 0.2 + 0.8 * fu); break;
+                    case cg::LineOnLineContact: if (k == 0) frame(v.R1, v.p1); else if (k == 1) pos(v.h1, 0.05, 0.5 + fu); else if (k == 2) frame(v.R2, v.p2); else pos(v.h2, 0.05, 0.5 + fu); break;
+                    default: break;
+                }
+                callConSetter(s, H.con[c], type, k, v);
+                const bool changed = !(old.p1 == v.p1 && old.p2 == v.p2 && old.length == v.length && old.value == v.value && old.r1 == v.r1 && old.r2 == v.r2 && old.h1 == v.h1 && old.h2 == v.h2 && Vec3(old.a1) == Vec3(v.a1)
+                                       && old.R1.asMat33() == v.R1.asMat33() && old.R2.asMat33() == v.R2.asMat33());
+                if (changed) noteChange(before, conSetterStage(type));
+                ctx.label(std::string("op:set-constraint-parameter/") + cg::consName(type)); if (structured) ctx.label("op-structured-value");
+                if (ctx.wantDesc) { ctx.desc.precision(17); ctx.desc << " op: constraint#" << c << " " << cg::consName(type) << "::" << sn << (structured ? " [derived from current]" : "") << " -> p1=" << v.p1 << " p2=" << v.p2 << " length=" << v.length << " value=" << v.value
+                                             << " r1=" << v.r1 << " r2=" << v.r2 << " h1=" << v.h1 << " h2=" << v.h2 << " a1=" << Vec3(v.a1) << (changed ? "" : " (no change)") << "  [stage before: " << before.getName() << "]\n"; }
+                // half of the parameter changes are queried at once (only the parameter changed since the last realization)
+                if (seg.size() > (size_t)QW && seg[QW] % 2u == 1u) { if (ctx.wantDesc) ctx.desc << " op: query (immediately after the constraint parameter operation)\n"; ctx.label("op:query-after-constraint-op");
+                    if (!H.query("(query right after " + std::string(cg::consName(type)) + "::" + sn + ", operation " + std::to_string(nOps) + ")")) return; }
+            }
+            else if (what % 2 == 0) { H.con[c].disable(s); if (!v.disabled) noteChange(before, Stage::Instance); v.disabled = true; ctx.label("op:constraint-disable"); if (ctx.wantDesc) ctx.desc << " op: constraint#" << c << " disable\n"; }
+            else { H.con[c].enable(s); if (v.disabled) noteChange(before, Stage::Instance); v.disabled = false; ctx.label("op:constraint-enable"); if (ctx.wantDesc) ctx.desc << " op: constraint#" << c << " enable\n"; }
         } else if (cls <= 14) {   // ---- locks
             int b = r.pick(nb); const MobilizedBody& mb = H.m->mb[b + 1]; int what = r.pick(6);
             Motion::Level lv = r.pick(3) == 0 ? Motion::Position : (r.w() & 1u) ? Motion::Velocity : Motion::Acceleration;
@@ -324,15 +371,15 @@ void directedNullConstraintMultipliers(pbt::Ctx& ctx) {
 pbt::Config config() {
     pbt::Config c; c.prop = "C16"; c.K = mbgen::K; c.minUnits = 1;
     c.quick = {2000, 12000, 60, 20}; c.thorough = {10000, 100000, 72, 100};
-    c.rule = "rapidcheck tape -> one model (mbgen tree 1..6 bodies without Weld, some locked by default; 1..8 forcegen force elements incl. all position-only/cached ones, Gravity, LinearBushing; 0..3 constraints Rod/Ball/ConstantSpeed) and a history of <= 40 operations on one State (force parameter setters, force/constraint enable/disable, setSpeed, q/u/z/time changes, realize(stage k), lock/lockAt/unlock, Euler toggle, query); at each query and at the end all Acceleration-stage results are compared with a fresh State given the same values. Non-trivial: the history contains a value change made when the State was realized at or above the stage that change invalidates (followed by the final realization); distinct by tape hash.";
+    c.rule = "rapidcheck tape -> one model (mbgen tree 1..6 bodies without Weld, some locked by default; 1..8 forcegen force elements incl. all position-only/cached ones, Gravity, LinearBushing; 0..3 constraints of all 18 built-in types (consgen)) and a history of <= 40 operations on one State (force parameter setters, force/constraint enable/disable, every State-level constraint parameter setter (Rod, Ball, NoSlip1D, ConstantCoordinate/Speed/Acceleration, SphereOnPlane/SphereOnSphere/LineOnLine contact), q/u/z/time changes, realize(stage k), lock/lockAt/unlock, Euler toggle, query); at each query and at the end all Acceleration-stage results are compared with a fresh State given the same values. Non-trivial: the history contains a value change made when the State was realized at or above the stage that change invalidates (followed by the final realization); distinct by tape hash.";
     c.assumptions = {"q,u,z,t and lock values are read back from the history State (they are its current values); force parameters come from the model of the public setters", "comparison tolerance 1e-12 x group scale (observed: bitwise equal apart from denormal noise; both-NaN counts as equal)",
                      "Weld mobilizers are excluded (constraints between relatively immobile bodies are C08's finding)"};
     c.directed = {{"mls-stale-cache", "mls-stale-cache", directedMlsStale}, {"gravity-exclude-ground-nan", "gravity-exclude-ground-nan", directedGravityGroundNaN},
                   {"disabled-force-zdot-stale", "disabled-force-zdot-stale", directedDisabledBushingZDot},
                   {"null-constraint-multipliers", "null-constraint-multipliers-uninitialized", directedNullConstraintMultipliers}};
-    c.requiredLabels = {"change-after-realize", "op:query", "op:lock", "op:lockAt", "op:unlock", "op:toggle-euler", "op:constraint-enable", "op:constraint-disable", "op:constraint-setSpeed", "op:force-disable", "op:force-enable",
+    c.requiredLabels = {"change-after-realize", "op:query", "op:lock", "op:lockAt", "op:unlock", "op:toggle-euler", "op:constraint-enable", "op:constraint-disable", "op:set-constraint-parameter/Rod", "op:set-constraint-parameter/Ball", "op:set-constraint-parameter/ConstantCoordinate", "op:set-constraint-parameter/ConstantSpeed", "op:set-constraint-parameter/ConstantAcceleration", "op:set-constraint-parameter/NoSlip1D", "op:set-constraint-parameter/SphereOnPlaneContact", "op:set-constraint-parameter/SphereOnSphereContact", "op:set-constraint-parameter/LineOnLineContact", "op:query-after-constraint-op", "op:force-disable", "op:force-enable",
                         "op:set-q", "op:set-u", "op:set-time", "op:set-z", "op:MobilityLinearSpring.setStiffness", "op:Gravity.setMagnitude", "op:Gravity.setBodyIsExcluded", "op:LinearBushing.setStiffness", "op:DiscreteForces.addForceToBodyPoint",
-                        "constraint:Rod", "constraint:Ball", "constraint:ConstantSpeed", "lock-by-default", "force:TwoPointLinearSpring", "force:TwoPointConstantForce", "force:ConstantForce", "force:ConstantTorque", "force:MobilityLinearSpring"};
+                        "constraint:Rod", "constraint:Ball", "constraint:ConstantSpeed", "constraint:Weld", "constraint:PointInPlane", "constraint:PointOnLine", "constraint:ConstantAngle", "constraint:ConstantOrientation", "constraint:CoordinateCoupler", "constraint:SpeedCoupler", "constraint:PrescribedMotion", "constraint:PointOnPlaneContact", "lock-by-default", "force:TwoPointLinearSpring", "force:TwoPointConstantForce", "force:ConstantForce", "force:ConstantTorque", "force:MobilityLinearSpring"};
     return c;
 }
 } // namespace
